@@ -24,6 +24,8 @@ RULE = (
     'raises ResourcesUnavailable exactly when the amount was not available on entry; same '
     'ledger for shares of nested borrows. non-trivial = signal landed or reference; distinct = trace'
 )
+RULE = RULE + (' Further: an unlimited resource, a resource with a huge exact amount (claims of one more refused), refused decreases of several resources at once, bursts of forceful tear-downs in one time step, the adjusting activity struck like any participant.')
+
 LEVEL_TEXT = (
     'Fault enumeration by runtime monitoring: a conservation ledger, fed by the phase '
     'transitions the harness logs in the same turn as the real calls, is compared with the real '
